@@ -109,7 +109,7 @@ def correspond(ctx):
     from pybaselines import Baseline, Baseline2D
     rng = ctx.np_rng()
     dis = []
-    for f in sorted(glob.glob(os.path.join(ROOT, 'corpus', 'C13_*.json'))):
+    for f in ([] if getattr(ctx, 'no_corpus', False) else sorted(glob.glob(os.path.join(ROOT, 'corpus', 'C13_*.json')))):
         d = json.load(open(f))
         r = replay(ctx, d)
         ctx.case(('corpus', os.path.basename(f)))
@@ -121,6 +121,8 @@ def correspond(ctx):
         reg = M.registry(two_d)
         dim = '2d' if two_d else '1d'
         for name, e in reg.items():
+            if getattr(ctx, 'only', None) and name != ctx.only:
+                continue
             kw0 = M.filter_kwargs(e, M.call_kwargs(name, two_d))
             stack = name == 'collab_pls'
             for xord in ('sorted', 'unsorted'):
@@ -157,13 +159,35 @@ def correspond(ctx):
                         variants += [(False, kwv) for kwv in svs]
                         # degenerate data (no peaks at all; constant): branches that ordinary data never reach
                         variants += [(False, dict(kw0, __data__='smooth')), (False, dict(kw0, __data__='constant'))]
+                        # numeric parameters handed over as ARRAYS of the final dtype (validated without a copy): they are the caller's
+                        # objects too; values far beyond the data size provoke clipping
+                        arrp = {}
+                        for pn in ('half_window', 'max_half_window', 'smooth_half_window', 'lam', 'diff_order', 'poly_order', 'num_knots', 'spline_degree',
+                                   'num_eigens', 'lam_1', 'min_length', 'sections'):
+                            if pn not in e['params']:
+                                continue
+                            v = kw0.get(pn, e['params'][pn])
+                            big = pn in ('half_window', 'max_half_window')
+                            if v is None and not big:
+                                continue
+                            isint = pn not in ('lam', 'lam_1')
+                            val = (300 if big else (v if not isinstance(v, (tuple, list)) else v[0]))
+                            if isinstance(val, bool) or not isinstance(val, (int, float, np.integer, np.floating)):
+                                continue
+                            two = two_d or pn == 'max_half_window'
+                            arrp[pn] = np.array([val, val] if two else val, dtype=np.intp if isint else float)
+                        for pn, arr in arrp.items():
+                            variants.append((False, dict(kw0, **{pn: arr, '__arr__': pn})))
                     for raising, kwv in variants:
                         activate = kwv is not None
                         dkind = (kwv or {}).get('__data__')
-                        kwv = None if kwv is None else {k: v for k, v in kwv.items() if k != '__data__'}
-                        act = {k: v for k, v in (kwv or {}).items() if kw0.get(k, '<absent>') != v}
+                        arrname = (kwv or {}).get('__arr__')
+                        kwv = None if kwv is None else {k: v for k, v in kwv.items() if k not in ('__data__', '__arr__')}
+                        act = {k: v for k, v in (kwv or {}).items() if not isinstance(v, np.ndarray) and kw0.get(k, '<absent>') != v}
                         if dkind:
                             act['data'] = dkind
+                        if arrname:
+                            act = {arrname: 'array ' + repr(kwv[arrname].tolist())}
                         objs = {}
                         kw = dict(kw0)
                         if activate:
@@ -202,6 +226,8 @@ def correspond(ctx):
                             kw['method_kwargs'] = inner
                             if name == 'individual_axes':
                                 kw['method'] = 'asls'
+                        if arrname:
+                            objs[arrname] = kw[arrname]
                         for dk in ('pad_kwargs', 'window_kwargs'):
                             if dk in e['params']:
                                 objs[dk] = {'mode': 'edge'} if dk == 'pad_kwargs' else {'max_hits': 2}
@@ -305,6 +331,7 @@ def replay(ctx, data):
     r = data['replay']
     sub = type(ctx)(ctx.prop, 'thorough', 0)
     sub.only = r.get('method')
+    sub.no_corpus = True
     for d in correspond(sub):
         if d.property_level and isinstance(d.replay, dict) and d.replay.get('method') == r.get('method') and d.replay.get('object') == r.get('object') \
                 and d.replay.get('two_d') == r.get('two_d'):
